@@ -63,6 +63,8 @@ class BfsResult:
             if other.has_edges_list_hashes():
                 return False
         else:
+            if not other.has_edges_list_hashes():
+                return False
             if self.edges_list_hashes.shape != other.edges_list_hashes.shape:  # type: ignore
                 return False
             if not torch.all(self.edges_list_hashes == other.edges_list_hashes):  # type: ignore
